@@ -147,9 +147,11 @@ def _model(plan):
     return m, theta, pred
 
 
-def _simulate(ctx, plan, noise, noise_cov, script=None, strict=False):
+def _simulate(ctx, plan, noise, noise_cov, script=None, strict=False, model=None):
     from rsatoolbox.simulation import make_dataset
     m, theta, pred = _model(plan)
+    if model is not None:
+        m = model           # the caller's model object, reused across calls (pred is always recomputed from the plan)
     cv, cidx, labels, _ = _design(plan)
     seam = RngSeam(ctx, plan['serve_seed'], plan.get('faults'), script=script, strict_script=strict)
     with seam:
@@ -189,10 +191,14 @@ def execute(plan, ctx):
     nc, n_ch, n_sim = plan['n_cond'], plan['n_channel'], plan['n_sim']
     ctx.tick('op', op='make_dataset', n_cond=nc, n_channel=n_ch, n_sim=n_sim)
     cov = _spd(plan) if plan['noise_cov'] else None
+    shared_model = _model(plan)[0]
     try:
+        if plan.get('warmup', True) and plan['n_cond'] % 2 == 0:
+            # an earlier simulation from the same model object: later ones must still reproduce the model's RDM
+            _simulate(ctx, plan, 0, None, model=shared_model)
         ds, seam, (m, theta, pred, cv, cidx, labels) = _simulate(ctx, plan, plan['noise'], cov,
                                                                  script=plan.get('draw_script'),
-                                                                 strict=plan.get('strict_script', False))
+                                                                 strict=plan.get('strict_script', False), model=shared_model)
     except HarnessError:
         raise
     except Exception as e:
@@ -331,12 +337,12 @@ def execute(plan, ctx):
     script = seam.script_of_served()
     v1, v2 = 1.0, float(plan['noise2'])
     try:
-        d0, _, _ = _simulate(ctx, plan, 0, None, script=script, strict=True)
-        d1, _, _ = _simulate(ctx, plan, v1, None, script=script, strict=True)
-        d2, _, _ = _simulate(ctx, plan, v2, None, script=script, strict=True)
+        d0, _, _ = _simulate(ctx, plan, 0, None, script=script, strict=True, model=shared_model)
+        d1, _, _ = _simulate(ctx, plan, v1, None, script=script, strict=True, model=shared_model)
+        d2, _, _ = _simulate(ctx, plan, v2, None, script=script, strict=True, model=shared_model)
         dc = None
         if cov is not None:
-            dc, _, _ = _simulate(ctx, plan, v1, cov, script=script, strict=True)
+            dc, _, _ = _simulate(ctx, plan, v1, cov, script=script, strict=True, model=shared_model)
     except HarnessError:
         raise
     except Exception as e:
